@@ -485,6 +485,33 @@ func reprLeave(key interface{}) {
 	delete(reprActive.m, key)
 }
 
+// compareEnter notes that a comparison of the container identified by
+// key (a pointer) has started and returns an error if that makes too
+// many of them nested inside each other: two containers that contain
+// themselves would otherwise be compared for ever.
+func compareEnter(key interface{}) error {
+	reprActive.Lock()
+	defer reprActive.Unlock()
+	k := [2]interface{}{"cmp", key}
+	if reprActive.m[k] >= 50 {
+		return ExceptionNewf(RuntimeError, "maximum recursion depth exceeded in comparison")
+	}
+	reprActive.m[k]++
+	return nil
+}
+
+// compareLeave undoes compareEnter
+func compareLeave(key interface{}) {
+	reprActive.Lock()
+	defer reprActive.Unlock()
+	k := [2]interface{}{"cmp", key}
+	if reprActive.m[k] <= 1 {
+		delete(reprActive.m, k)
+	} else {
+		reprActive.m[k]--
+	}
+}
+
 // DebugRepr - see Repr but returns the repr or error as a string
 func DebugRepr(self Object) string {
 	res, err := Repr(self)
